@@ -244,6 +244,58 @@ def contradictions(R, rng, tier):
             R.violations.append({"what": "contradictory selection (%s) rejected without a diagnostic" % name, "input": inp, "observed": "", "signature": None})
 
 
+def ini_equivalence(R, rng, tier):
+    """Every option a .bandit file can carry gives the run the command-line spelling gives (values with blanks, commas, globs)."""
+    import shutil
+    d = os.path.join(impl.scratch(), "c13i")
+    shutil.rmtree(d, ignore_errors=True)
+    for sub in ("build output", "builder", "pkg", "pkg/tests"):
+        os.makedirs(os.path.join(d, sub))
+    for f in ("build output/gen.py", "builder/tool.py", "pkg/a.py", "pkg/tests/t.py", "top.py"):
+        open(os.path.join(d, f), "w").write("assert x\nexec(y)\n")
+    cases = [("exclude", "*/build output/*", ["-x", "*/build output/*"]), ("exclude", "./build output", ["-x", "./build output"]),
+             ("exclude", "*/tests/*,*/builder/*", ["-x", "*/tests/*,*/builder/*"]), ("tests", "B101", ["-t", "B101"]),
+             ("skips", "B101,B102", ["-s", "B101,B102"]), ("exclude", "top.py", ["-x", "top.py"])]
+    for key, val, argv in cases:
+        ini = os.path.join(d, "o.ini")
+        open(ini, "w").write("[bandit]\n%s = %s\n" % (key, val))
+        a = climain.run_main(["-q", "-r", "-f", "json", "--ini", ini, "."], cwd=d)
+        b = climain.run_main(["-q", "-r", "-f", "json"] + argv + ["."], cwd=d)
+        R.case(("ini-eq", key, val), nontrivial=True, sample={"ini": "%s = %s" % (key, val), "exit": a["exit"]})
+        R.count("ini-equivalence")
+        fa = None if results_files(a) is None else results_files(a)
+        fb = None if results_files(b) is None else results_files(b)
+        if a["exception"] or b["exception"] or a["exit"] != b["exit"] or fa != fb:
+            R.violations.append({"what": "'%s = %s' in a .bandit file gives another run than %s" % (key, val, " ".join(argv)),
+                                 "input": {"ini": "%s = %s" % (key, val), "argv": argv},
+                                 "observed": {"ini": (a["exit"], a["exception"], fa and fa[:6]), "cli": (b["exit"], b["exception"], fb and fb[:6])}, "signature": None})
+    # profile names: a name that is not defined is a usage error whatever it looks like; a defined name may contain dots
+    import yaml
+    cf = os.path.join(d, "p.yaml")
+    yaml.safe_dump({"profiles": {"web": {"include": ["B101"]}, "py3.x": {"include": ["B102"]}}}, open(cf, "w"))
+    for name, want in (("web", (1, ["B101"] * 5)), ("py3.x", (1, ["B102"] * 5)), ("web.include", 2), ("web.exclude", 2), ("nosuch", 2), ("profiles", 2), ("", 2)):
+        r = climain.run_main(["-q", "-r", "-f", "json", "-c", cf, "-p", name, "."], cwd=d)
+        R.case(("profile-name", name), nontrivial=True, sample={"profile": name, "exit": r["exit"], "exception": r["exception"]})
+        R.count("profile-names")
+        if r["exception"]:
+            R.violations.append({"what": "-p %r ends in a traceback (%s)" % (name, r["exception"]), "input": {"profile": name}, "observed": (r["traceback"] or "")[-300:], "signature": None})
+        elif want == 2 and r["exit"] != 2 and name != "":
+            R.violations.append({"what": "-p %r (not a defined profile) is not rejected with exit status 2 (exit %s)" % (name, r["exit"]), "input": {"profile": name}, "observed": r["exit"], "signature": None})
+        elif want != 2:
+            got = sorted(x[0] for x in (results(r) or []))
+            if r["exit"] != want[0] or got != sorted(want[1]):
+                R.violations.append({"what": "-p %r (a defined profile) gives exit %s and findings %s" % (name, r["exit"], got), "input": {"profile": name}, "observed": got, "signature": None})
+    shutil.rmtree(d, ignore_errors=True)
+
+
+def results_files(r):
+    try:
+        j = json.loads(r["stdout"])
+        return sorted((os.path.normpath(x["filename"]), x["test_id"], x["line_number"]) for x in j["results"])
+    except Exception:
+        return None
+
+
 TOP = [("empty", ""), ("null", "null\n"), ("int", "3\n"), ("str", "hello\n"), ("list", "- a\n- b\n"), ("bool", "true\n"),
        ("syntax", "a: [1\n"), ("tabs", "a:\n\t- b\n"), ("binary", "\x00\x01"), ("mapping-empty", "{}\n")]
 VALUES = [("null", "null"), ("int", "3"), ("str", "B101"), ("list-int", "[1, 2]"), ("map", "{a: 1}"), ("bool", "true"), ("nested", "[[B101]]")]
@@ -430,6 +482,7 @@ def run(R, replay=None):
     generator(R, rng, R.tier)
     malformed(R, rng, R.tier)
     contradictions(R, rng, R.tier)
+    ini_equivalence(R, rng, R.tier)
     generated_plus_settings(R, rng, R.tier)
     ini_booleans(R, rng, R.tier)
     model_corr(R, rng, R.tier)
